@@ -663,8 +663,83 @@ theorem areaSeries_equatorial (g : Geod ℝ) (β : Beta ℝ) (h1 : β.sbet1 = 0)
 
 /-! ### the sign flags: symmetries of the whole function -/
 
-/-- `±1` -/
-def Sign (s : Int) : Prop := s = 1 ∨ s = -1
+
+theorem neg_lit0 : -lit0 = (0 : ℝ) := by rw [lit_zero, neg_zero]
+
+/-- the sign restoration applied to the equatorial answer -/
+theorem restore_equatorial (p : Params ℝ) (lon12 lam12 : ℝ) (ls sw lt : Int) (S : ℝ) :
+    (restore ls sw lt (equatorial p lon12 lam12) S).s12 = p.a * lam12 ∧
+    (restore ls sw lt (equatorial p lon12 lam12) S).m12 = p.b * Real.sin (lam12 / p.f1) ∧
+    (restore ls sw lt (equatorial p lon12 lam12) S).M12 = Real.cos (lam12 / p.f1) ∧
+    (restore ls sw lt (equatorial p lon12 lam12) S).M21 = Real.cos (lam12 / p.f1) ∧
+    (restore ls sw lt (equatorial p lon12 lam12) S).a12 = lon12 / p.f1 ∧
+    (restore ls sw lt (equatorial p lon12 lam12) S).calp1 = 0 ∧ (restore ls sw lt (equatorial p lon12 lam12) S).calp2 = 0 ∧
+    (restore ls sw lt (equatorial p lon12 lam12) S).salp1 = (if sw * ls < 0 then -1 else 1) ∧
+    (restore ls sw lt (equatorial p lon12 lam12) S).salp2 = (if sw * ls < 0 then -1 else 1) := by
+  refine ⟨?_, ?_, ?_, ?_, rfl, ?_, ?_, ?_, ?_⟩
+  · rw [restore_s12]; rfl
+  · rw [restore_m12]; rfl
+  · show (if sw < 0 then Real.cos (lam12 / p.f1) else Real.cos (lam12 / p.f1)) = _
+    split <;> rfl
+  · show (if sw < 0 then Real.cos (lam12 / p.f1) else Real.cos (lam12 / p.f1)) = _
+    split <;> rfl
+  · show mulSign (sw * lt) (if sw < 0 then lit0 else lit0) = 0
+    rw [mulSign_real]; split <;> split <;> simp [lit_zero]
+  · show mulSign (sw * lt) (if sw < 0 then lit0 else lit0) = 0
+    rw [mulSign_real]; split <;> split <;> simp [lit_zero]
+  · show mulSign (sw * ls) (if sw < 0 then lit1 else lit1) = _
+    rw [mulSign_real]; split <;> split <;> simp [lit_one]
+  · show mulSign (sw * ls) (if sw < 0 then lit1 else lit1) = _
+    rw [mulSign_real]; split <;> split <;> simp [lit_one]
+
+theorem areaS12_equatorial (p : Params ℝ) (k : Kernels ℝ) (β : Beta ℝ) (lon12 lam12 : ℝ) (ls sw lt : Int) (h1 : β.sbet1 = 0)
+    (h2 : β.sbet2 = 0) (hc1 : 0 < β.cbet1) (hc2 : 0 < β.cbet2) (harea : k.area 1 0 1 0 = 0) :
+    areaS12 p k β (equatorial p lon12 lam12) ls sw lt = 0 := by
+  unfold areaS12
+  rw [areaAlp12_equatorial p.tiny p β lon12 lam12 h1 h2 hc1 hc2]
+  show mulSign (sw * ls * lt) (k.area lit1 lit0 lit1 lit0 + p.c2 * 0) + lit0 = 0
+  rw [lit_one, lit_zero, harea, mulSign_real]
+  split <;> simp
+
+/-- the meridional candidate, spelt out: `σ12 = σ2 − σ1` with `tan σ1 = sbet1/(clam12 cbet1)`, `tan σ2 = sbet2/cbet2`, clipped at 0 -/
+theorem meridional_sig12c_eq (p : Params ℝ) (k : Kernels ℝ) (β : Beta ℝ) (s c : ℝ) :
+    (meridional p k β s c).sig12c =
+      RealLike.atan2 (max 0 (c * β.cbet1 * β.sbet2 - β.sbet1 * β.cbet2)) (c * β.cbet1 * β.cbet2 + β.sbet1 * β.sbet2) := by
+  show RealLike.atan2 (RealLike.max lit0 (c * β.cbet1 * β.sbet2 - β.sbet1 * (lit1 * β.cbet2)) + lit0)
+      (c * β.cbet1 * (lit1 * β.cbet2) + β.sbet1 * β.sbet2) = _
+  rw [lit_zero, lit_one, one_mul, add_zero, max_real]
+
+theorem meridional_fields (p : Params ℝ) (k : Kernels ℝ) (β : Beta ℝ) (s c : ℝ) :
+    (meridional p k β s c).sol.salp1 = s ∧ (meridional p k β s c).sol.calp1 = c ∧
+    (meridional p k β s c).sol.salp2 = 0 ∧ (meridional p k β s c).sol.calp2 = 1 ∧
+    (meridional p k β s c).sol.s12x =
+      (if (meridional p k β s c).zeroed then 0
+       else (k.lenMerid (meridional p k β s c).sig12c β.sbet1 (c * β.cbet1) β.sbet2 β.cbet2).s12b) * p.b ∧
+    (meridional p k β s c).sol.m12x =
+      (if (meridional p k β s c).zeroed then 0
+       else (k.lenMerid (meridional p k β s c).sig12c β.sbet1 (c * β.cbet1) β.sbet2 β.cbet2).m12b) * p.b := by
+  refine ⟨rfl, rfl, lit_zero, lit_one, ?_, ?_⟩
+  · show (if (meridional p k β s c).zeroed then lit0
+      else (k.lenMerid (meridional p k β s c).sig12c β.sbet1 (c * β.cbet1) β.sbet2 (lit1 * β.cbet2)).s12b) * p.b = _
+    rw [lit_zero, lit_one, one_mul]
+  · show (if (meridional p k β s c).zeroed then lit0
+      else (k.lenMerid (meridional p k β s c).sig12c β.sbet1 (c * β.cbet1) β.sbet2 (lit1 * β.cbet2)).m12b) * p.b = _
+    rw [lit_zero, lit_one, one_mul]
+
+/-- `mulSign` of a sign flag on `±1` / `0` -/
+theorem mulSign_pm_one (s : Int) (x : ℝ) (hx : x = 1 ∨ x = -1) : mulSign s x = 1 ∨ mulSign s x = -1 := by
+  rw [mulSign_real]; split <;> rcases hx with rfl | rfl <;> simp
+
+theorem mulSign_zero (s : Int) : mulSign s (0 : ℝ) = 0 := by
+  rw [mulSign_real]; split <;> simp
+
+theorem atan2d_zero_pm_one (x : ℝ) (hx : x = 1 ∨ x = -1) : atan2d 0 x = 0 ∨ atan2d 0 x = 180 := by
+  rcases hx with rfl | rfl
+  · exact Or.inl (atan2d_zero_pos 1 one_pos)
+  · exact Or.inr (atan2d_zero_neg (-1) (by norm_num))
+
+theorem mulSign_neg_flag (s : Int) (hs : s = 1 ∨ s = -1) (x : ℝ) : mulSign (-s) x = -mulSign s x := by
+  rcases hs with rfl | rfl <;> simp [mulSign_real]
 
 end Real
 
